@@ -3,8 +3,6 @@ C09 — Printing a file yields an equivalent canonical file (round trip, fixed p
 Property theorems only (helper lemmas: KlogV/Lemmas/Roundtrip*.lean).
 -/
 import KlogV.Lemmas.Roundtrip
-import KlogV.Props.GoSrc
-import KlogV.Props.GoCal
 namespace KlogV.C09
 
 /-- A summary line as the parser can produce it and the serialiser can reproduce it: no line
